@@ -65,6 +65,13 @@ CLAIMED = {
          "Proof: the prediction is the sum over stored orders of a_s^k alpha^l LR^i LF^j <operator, pdfs> (power 0 special-casing harmless), linear in the PDF, independent of "
          "rows of missing flavours and of key order; alpha_s is asked with nf = NfFF (fixed flavour) or 3 + #{(m k)^2 <= muR^2} (ZM-VFNS). Real outputs are contracted independently.",
          "Trusted: Coq kernel+vm_compute; harness; eko's Couplings running itself is outside; logs enter as the code's floats.", "4 C17"),
+ "C18": ("translator tie: every njit kernel and every RSL construction site is regenerated from the source (tools/pyk2coq.py, tools/sites.py) on each run; the in-bounds "
+         "predicate over the regenerated site table is decided by vm_compute and lifted by a theorem proved by induction on expressions",
+         "Partial proof (memory-safety half): every translated part of every RSL site is handed at least arity-many arguments, hence (theorem, all z, all vectors of that length) "
+         "its evaluation reads no index outside the vector; a site failing the test reads out of bounds on every input (this found the defect fixed in a98663cd). 138 of 143 njit "
+         "functions are covered (the five others are the hand-modelled loops and the special-function implementations). Agreement of compiled and interpreted kernels to rounding "
+         "is sampled in separate processes with NUMBA_BOUNDSCHECK=1, not proved.",
+         "Trusted: Coq kernel+vm_compute; the translators; numba/LLVM code generation and the Chebyshev li2/nielsen index arithmetic are not modelled.", "4 C18"),
 }
 PENDING = "check not built yet in this snapshot (machinery under construction, see DESIGN.md section 4)"
 
